@@ -203,6 +203,17 @@ func (h *DNSHandler) handle(ctx context.Context, req *dns.Msg) *dns.Msg {
 			dns.ExtendedErrorCodeOther, "Upstream server returned an extended error")
 	}
 
+	// What goes back is the reply to this query: QR set, the query's
+	// opcode, and the client's own spelling of the question. The upstream's
+	// reply was accepted on its ID and on a question that matches up to
+	// letter case; a client that randomises the case of its queries (0x20)
+	// discards a reply that does not echo its spelling.
+	resp.Response = true
+	resp.Opcode = req.Opcode
+	if len(resp.Question) > 0 {
+		resp.Question[0].Name = q.Name
+	}
+
 	return resp
 }
 
